@@ -140,41 +140,36 @@ Definition pp_get (P : list (list Matc)) (i j : nat) : Matc := nth j (nth i P []
 Definition four_trace (P : list (list Matc)) (i j k l : nat) : Cc := mtrprod Op d (pp_get P i j) (pp_get P k l).
 Definition btrace (basis : list Matc) (k : nat) : Cc := mtrace Op d (nthm basis k).
 
-(* infidelity, non-traceless basis:
-   traces_diag = diagonal(traces, axis1=2, axis2=3).sum(-1) - diagonal(traces, axis1=1, axis2=3).sum(-1)
-   i.e. td_kl = sum_i T_klii - sum_i T_kili *)
-Definition traces_diag (P : list (list Matc)) (n : nat) (k l : nat) : Cc :=
-  csub Op (csumn Op n (fun i => four_trace P k l i i)) (csumn Op n (fun i => four_trace P k i l i)).
-Definition traces_diag_arr (P : list (list Matc)) (n : nat) : list (list Cc) :=
-  build n (fun k => build n (fun l => traces_diag P n k l)).
-
 Fixpoint dnat (n : nat) : T := match n with O => o0 Op | S k => oadd Op (dnat k) (o1 Op) end.
 
-(* ---------- numeric.infidelity ---------- *)
-(* filter function of the three branches, [a][b][o] *)
-(* which='total', basis.istraceless: pulse.get_filter_function(omega, 'fidelity') = 'ako,bko->abo' *)
-Definition infid_ff_traceless (na nk no : nat) (Bm : A3) : A3 := filter_function Op na nk no Bm.
-(* which='total', not basis.istraceless: einsum('ako,blo,kl->abo', conj B, B, traces_diag) / d *)
-Definition infid_ff_general (na nk no : nat) (Bm : A3) (td : list (list Cc)) : A3 :=
+(* ---------- numeric.infidelity (after fix 2891db3) ---------- *)
+(* basis_traces = einsum('kjj->k', basis) *)
+Definition basis_traces (basis : list Matc) (nk : nat) : list Cc := build nk (fun k => btrace basis k).
+(* fidelity filter function minus the rank-one identity term, for EVERY basis:
+     einsum('ako,bko->abo', conj L, R)
+     - einsum('ao,bo->abo', einsum('k,ako->ao', t, conj L), einsum('k,ako->ao', t, R)) / d
+   (L = R = control matrix for which='total'; L = B_g, R = B_h for which='correlations') *)
+Definition infid_ff_corrected (na nk no : nat) (L R : A3) (t : list Cc) : A3 :=
   a3build na na no (fun a b o =>
-    cdivr Op (csumn Op nk (fun k => csumn Op nk (fun l =>
-       cmul Op (cmul Op (cconj Op (a3get Op Bm a k o)) (a3get Op Bm b l o)) (nth l (nth k td []) (c0 Op)))))
-      (dnat d)).
+    csub Op (csumn Op nk (fun k => cmul Op (cconj Op (a3get Op L a k o)) (a3get Op R b k o)))
+            (cdivr Op (cmul Op (csumn Op nk (fun k => cmul Op (nth k t (c0 Op)) (cconj Op (a3get Op L a k o))))
+                               (csumn Op nk (fun l => cmul Op (nth l t (c0 Op)) (a3get Op R b l o))))
+                      (dnat d))).
 (* infid = integrate(integrand, omega) / (2 pi d), flat over [leads] *)
 Definition infid_of_ff (F : A3) (idx : list nat) (sp : spectrum) (no : nat) (omega : list T) : list T :=
   map (fun p => odiv Op (trapz Op (build no (integrand_fid F idx sp (fst p) (snd p))) omega)
                         (omul Op two_pi (dnat d)))
       (leads sp (length idx)).
-Definition infidelity_total (istraceless : bool) (na nk no : nat) (Bm : A3) (basis : list Matc)
+Definition infidelity_total (na nk no : nat) (Bm : A3) (basis : list Matc)
            (idx : list nat) (sp : spectrum) (omega : list T) : list T :=
-  let F := if istraceless then infid_ff_traceless na nk no Bm
-           else infid_ff_general na nk no Bm (traces_diag_arr (pair_products basis) nk) in
-  infid_of_ff F idx sp no omega.
-(* which='correlations': pulse.get_pulse_correlation_filter_function() = 'gako,hbko->ghabo';
-   no trace-tensor correction on this branch *)
-Definition infidelity_pc (na nk no : nat) (Bpc : list A3) (idx : list nat) (sp : spectrum) (omega : list T)
-  : list (list (list T)) :=
-  map (fun Bg => map (fun Bh => infid_of_ff (ff_fidelity2 na nk no Bg Bh) idx sp no omega) Bpc) Bpc.
+  infid_of_ff (infid_ff_corrected na nk no Bm Bm (basis_traces basis nk)) idx sp no omega.
+(* which='correlations': pulse.get_pulse_correlation_filter_function() = 'gako,hbko->ghabo', corrected by the
+   rank-one term 'gao,hbo->ghabo' ONLY when pulse.is_cached('control_matrix_pc') ([has_cm_pc]) *)
+Definition infidelity_pc (has_cm_pc : bool) (na nk no : nat) (Bpc : list A3) (basis : list Matc)
+           (idx : list nat) (sp : spectrum) (omega : list T) : list (list (list T)) :=
+  map (fun Bg => map (fun Bh =>
+         infid_of_ff (if has_cm_pc then infid_ff_corrected na nk no Bg Bh (basis_traces basis nk)
+                      else ff_fidelity2 na nk no Bg Bh) idx sp no omega) Bpc) Bpc.
 
 (* control matrix of a concatenated pulse from the pulse-correlation one: _control_matrix_pc.sum(axis=0) *)
 Definition cm_pc_sum (na nk no : nat) (Bpc : list A3) : A3 :=
